@@ -460,7 +460,7 @@ Proof.
     eapply parse_elem_err; eauto.
 Qed.
 
-(* ------------------------------------------------------------------ the current parser (F5) *)
+(* ------------------------------------------------------------------ HISTORICAL: the parser before fix 751715b (F5) *)
 
 (* the two parsers differ only in the class of the exception raised when int() fails *)
 Lemma parse_elem_gen_cases e err1 err2 :
@@ -482,18 +482,18 @@ Proof.
   - rewrite E1, E2. right. auto.
 Qed.
 
-Theorem parse_current_vs_parse s :
-  parse_current s = parse s \/
-  (parse_current s = Err ValueError /\ parse s = Err (LibError Bip32PathError)).
+Theorem parse_before_fix_vs_parse s :
+  parse_before_fix s = parse s \/
+  (parse_before_fix s = Err ValueError /\ parse s = Err (LibError Bip32PathError)).
 Proof.
-  unfold parse_current, parse, parse_gen.
+  unfold parse_before_fix, parse, parse_gen.
   destruct (match path_fields s with
             | f :: r => if list_eqb f bip32_master_char then (true, r) else (false, path_fields s)
             | [] => (false, path_fields s) end) as [ab fs'].
   destruct (mapM_cases ValueError (LibError Bip32PathError) fs') as [->|[-> ->]]; [left|right]; auto.
 Qed.
 
-Theorem parse_current_refuted : exists s, parse_current s = Err ValueError /\ parse s = Err (LibError Bip32PathError).
+Theorem parse_before_fix_refuted : exists s, parse_before_fix s = Err ValueError /\ parse s = Err (LibError Bip32PathError).
 Proof. exists [109; 47; 178]. vm_compute. auto. Qed.
 
 (* where every numeric character is a decimal digit (e.g. ASCII text) and no run of digits can
@@ -504,12 +504,12 @@ Proof.
   rewrite app_length. lia.
 Qed.
 
-Theorem parse_current_partial s :
+Theorem parse_before_fix_partial s :
   (forall c, In c s -> cp_isnumeric c = true -> cp_isdecimal c = true) ->
   int_limit_ok (length s) = true ->
-  parse_current s = parse s.
+  parse_before_fix s = parse s.
 Proof.
-  intros Hd Hl. unfold parse_current, parse. rewrite !parse_gen_fields. unfold parse_fields.
+  intros Hd Hl. unfold parse_before_fix, parse. rewrite !parse_gen_fields. unfold parse_fields.
   assert (G : forall fs', (forall e, In e fs' -> incl e s /\ (length e <= length s)%nat) ->
             mapM (parse_elem_gen ValueError) fs' = mapM (parse_elem_gen (LibError Bip32PathError)) fs').
   { intros fs' Hin'. apply mapM_ext_in. intros e Ie. destruct (Hin' e Ie) as [Hin Hlen0].
